@@ -128,6 +128,84 @@ def classify_anyrt(a, o):
     return "preserved" if L.first_diff(want, L.norm(t)) is None else "changed"
 
 
+# ---------------------------------------------------------------- c11.field / c11.mixed (the binder pipelines of the theorems)
+def field_case(rng, kind, nillable, trees, text=None):
+    u, desc, ctx = L.host(kind, "##any", None, nillable=nillable)
+    var = L.wildcard_var(u, kind)
+    a = {"ctx": ctx, "var": u.export_var(var), "host": "H", "trees": trees, "_kind": kind, "_nillable": nillable,
+         "_uni": u.modname, "desc": desc}
+    if kind == "mixed":
+        a["text"] = text
+    return a
+
+
+def _field_trees(rng, tier):
+    for t in L.shape_samples(rng, 5, n_cases(tier, 1, 6)):
+        yield [t]
+    for _ in range(n_cases(tier, 350, 3000)):
+        yield [clean_for_model(L.rand_tree(rng, rng.randint(1, 7), clean=rng.random() < 0.6)) for _ in range(rng.choice([0, 1, 1, 2, 2, 3, 4]))]
+
+
+def gen_field(rng, tier):
+    for trees in _field_trees(rng, tier):
+        yield field_case(rng, rng.choice(["list", "single"]), rng.random() < 0.3, trees)
+
+
+def gen_mixed(rng, tier):
+    for trees in _field_trees(rng, tier):
+        yield field_case(rng, "mixed", rng.random() < 0.3, trees, rng.choice([None, None, "lead", "", " \n", " pad ", "x<y"]))
+
+
+def impl_field(a):
+    u = uni_of(a)
+    var = L.wildcard_var(u, a["_kind"])
+    try:
+        if a["_kind"] == "mixed":
+            return {"ok": L.real_mixed_roundtrip(u, var, a["host"], a["text"], a["trees"])}
+        return {"ok": L.real_field_roundtrip(u, var, a["host"], a["trees"])}
+    except Exception as e:  # noqa: BLE001
+        r = B.classify_exc(e)
+        return {"err": "SerializerError"} if r.get("err") == "LEAK:XmlWriterError" else r
+
+
+def canon_tree_out(o):
+    if isinstance(o, dict) and isinstance(o.get("ok"), dict) and "q" in o["ok"]:
+        return {"ok": L.strip_ns(o["ok"])}
+    return o
+
+
+def classify_field(a, o):
+    if "ok" not in o:
+        return o.get("err", "?")
+    text = a.get("text")
+    want = L.norm(L.node("H", [], None if L.is_blank(text) else text, a["trees"]))
+    return "preserved" if L.first_diff(want, L.norm(o["ok"])) is None else "changed"
+
+
+# ---------------------------------------------------------------- c11.norm (the ≈ws of the theorems = the ≈ws of the oracles)
+def gen_norm(rng, tier):
+    for t in L.exhaustive_small(2)[:: n_cases(tier, 3, 1)]:
+        yield {"tree": t}
+    for _ in range(n_cases(tier, 300, 3000)):
+        yield {"tree": clean_for_model(L.rand_tree(rng, rng.randint(1, 9), clean=False))}
+
+
+def _as_tree(n):
+    return {"q": n["q"], "a": n["a"], "ns": [], "t": n["t"], "c": [_as_tree(c) for c in n["c"]], "tl": n["tl"]}
+
+
+def impl_norm(a):
+    """the harness's own normal form (harness/c11_lib.norm, used by the oracles), in the JSON shape of a Tree"""
+    return {"ok": _as_tree(L.norm(a["tree"]))}
+
+
+def canon_norm(o):
+    def go(n):
+        return {**n, "a": sorted(n["a"]), "c": [go(c) for c in n["c"]]}
+
+    return {"ok": go(o["ok"])} if isinstance(o, dict) and "ok" in o else o
+
+
 # ---------------------------------------------------------------- bind.parse / bind.roundtrip on hosts
 def host_cases(rng, tier, n):
     """documents of typed hosts with a wildcard placement: (universe, ctx, desc, tree, info)"""
@@ -206,6 +284,12 @@ CORRS = [
          describe="XmlVarBuilder.resolve_namespaces + XmlVar.match_namespace vs model on all keyword combinations"),
     Corr("c11.anyrt", gen_anyrt, impl_anyrt, canon=canon_anyrt, classify=classify_anyrt,
          describe="real WildcardNode + convert_any_type + XmlEventWriter (+lxml re-read) vs model wildRoundtrip"),
+    Corr("c11.field", gen_field, impl_field, canon=canon_tree_out, classify=classify_field,
+         describe="real WildcardNode + ElementNode.bind_wild_var + convert_value + writer vs model fieldRoundtrip (list and single)"),
+    Corr("c11.mixed", gen_mixed, impl_field, canon=canon_tree_out, classify=classify_field,
+         describe="real bind_mixed_objects + bind_wild_text + convert_value + writer vs model mixedRoundtrip"),
+    Corr("c11.norm", gen_norm, impl_norm, canon=canon_norm,
+         describe="normTree of the theorems vs the oracles' own normal form (not library code: ties the two notions of ≈ws)"),
     Corr("bind.parse", gen_parse_hosts, impl_parse, compare=cmp_parse, classify=classify_parse,
          describe="NodeParser vs model on typed hosts with wildcard placements (single/list/mixed/choice x namespace modes)"),
     Corr("c11.roundtrip", gen_roundtrip_hosts, impl_roundtrip_c11, compare=cmp_parse, classify=classify_rt,
@@ -240,6 +324,14 @@ def _neut_prefixed(n, depth):
     n["a"] = [[k, ("v" if (k != L.XSI_TYPE and _declared_prefixed(n, v)) else v)] for k, v in n["a"]]
 
 
+def _predict_prefixed(n, depth, a):
+    """what the unchanged code returns under C11-anyattr-prefixed-value: the Clark form of the name the value
+    denotes in the scope of its own element"""
+    nsmap = {p: u for p, u in n["ns"]}
+    if depth:
+        n["a"] = [[k, (L.denote(v, nsmap) if k != L.XSI_TYPE else v)] for k, v in n["a"]]
+
+
 def _tail_lost(a, n):
     """outside mixed content a DerivedElement has no slot for the tail of its element"""
     return a["kind"] != "mixed" and not L.is_blank(n["tl"])
@@ -264,11 +356,12 @@ def _neut_typed_canon(n, depth, a):
             n["t"] = t2
 
 
-# finding id, trigger(node, depth, args), neutralise(node, depth, args)
+# finding id, trigger(node, depth, args), predict(node, depth, args): the finding's own description of what the
+# unchanged code returns for that element (a failure is covered only if the output is exactly the prediction)
 NEUTRALISE = [
     ("C11-anyattr-prefixed-value",
      lambda n, d, a: any(k != L.XSI_TYPE and _declared_prefixed(n, v) for k, v in n["a"]) and not (d == 0),
-     lambda n, d, a: _neut_prefixed(n, d)),
+     _predict_prefixed),
     ("C11-xsitype-primitive-attrs-tail-dropped",
      lambda n, d, a: is_typed_top(n, d) and (len(n["a"]) > 1 or _tail_lost(a, n)), _neut_typed_attrs),
     ("C11-xsitype-primitive-recanonicalised",
@@ -281,13 +374,14 @@ DENOTES = "[names denoted]"
 PREFIXED = "C11-anyattr-prefixed-value"
 
 
-def oracle_preserve(a):
+def oracle_preserve(a, expect=None):
     """parse (native/lxml handler) -> serialize (native/lxml writer) -> independent re-read (lxml):
     the infoset of the document is unchanged modulo `≈ws`"""
     u, desc, ctx = L.host(a["kind"], a["nsmode"], a["target"], a.get("attributes", False), a.get("head", False))
     doc = a["tree"]
     data = G.tree_xml(doc)
-    read = G.xml_tree(data)
+    # `expect`: judge the outputs against another document (what a listed finding predicts) instead of the input
+    read = G.xml_tree(data) if expect is None else G.xml_tree(G.tree_xml(expect))
     want = L.norm(read, host=True)
     want_d = L.norm(read, host=True, denoted=True)
     spelled = None
@@ -322,40 +416,37 @@ def oracle_preserve(a):
     return spelled
 
 
+def _predicted(a, preds):
+    t2 = copy.deepcopy(a["tree"])
+    for pred in preds:
+        for n, d in _walk(t2):
+            pred(n, d, a)
+    return t2
+
+
 def covered_preserve(a, msg):
-    """The finding C11-anyattr-prefixed-value only changes the *spelling* of a prefixed value (to the Clark form of
-    the name it denotes in the scope of its element): it covers a failure only when the denoted names agree."""
-    hits = [(fid, neut) for fid, trig, neut in NEUTRALISE if any(trig(n, d, a) for n, d in _walk(a["tree"]))]
-    pref = any(fid == PREFIXED for fid, _ in hits)
-    others = [(fid, neut) for fid, neut in hits if fid != PREFIXED]
-    if DENOTES not in msg:
-        if not pref:
-            return None
-        # only the spelling differs: it is the finding's only if the same document with its declared-prefixed values
-        # replaced by plain ones comes back unchanged (another value whose spelling changes is another violation)
+    """A failure is covered by a listed finding only if the outputs of the unchanged code are *exactly* what the
+    finding (or the triggered findings together) predicts for this document: the prefixed value spelled as the Clark
+    form of the name it denotes in the scope of its own element, the extra attributes / the tail of a typed primitive
+    gone, its type narrowed. For C11-anyattr-prefixed-value also the auditor's test: the same document with its
+    declared-prefixed values replaced by plain ones comes back unchanged."""
+    hits = [(fid, pred) for fid, trig, pred in NEUTRALISE if any(trig(n, d, a) for n, d in _walk(a["tree"]))]
+
+    def exact(preds):
+        return oracle_preserve(a, expect=_predicted(a, preds)) is None
+
+    def plain_ok():
         t2 = copy.deepcopy(a["tree"])
         for n, d in _walk(t2):
             if d:
                 _neut_prefixed(n, d)
-        return PREFIXED if oracle_preserve({**a, "tree": t2}) is None else None
+        return oracle_preserve({**a, "tree": t2}) is None
 
-    def spelled_only(t2):
-        m2 = oracle_preserve({**a, "tree": t2})
-        return m2 is None or (pref and DENOTES not in m2)
-
-    for fid, neut in others:
-        t2 = copy.deepcopy(a["tree"])
-        for n, d in _walk(t2):
-            neut(n, d, a)
-        if spelled_only(t2):
+    for fid, pred in hits:
+        if exact([pred]) and (fid != PREFIXED or plain_ok()):
             return fid
-    if len(others) > 1:
-        t2 = copy.deepcopy(a["tree"])
-        for fid, neut in others:
-            for n, d in _walk(t2):
-                neut(n, d, a)
-        if spelled_only(t2):
-            return others[0][0]
+    if len(hits) > 1 and exact([pred for _, pred in hits]):
+        return hits[0][0]
     return None
 
 
